@@ -266,3 +266,4 @@ MATCH_MP = ('        left_conclusion = left.conclusion\n        l, r = Implies.e
             '        match left.conclusion:\n            case Implies(l, r):\n                if l != right.conclusion:\n                    raise AssertionError(str(l) + \' != \' + str(right.conclusion))\n                return Proved(r)\n            case _:\n                raise AssertionError(\'not an implication\')')
 for prop in ('C07', 'C02', 'C08'):
     V(f'{prop}-twin-mp-with-match', prop, [(BI, MATCH_MP[0], MATCH_MP[1])], expect='silent')
+V('C14-next-byte-returns-zero-at-end', 'C14', [(DS, "            case None:\n                raise DeserializingException(err_msg)", "            case None:\n                return 0")], names='operand-reader-raises-at-end')
